@@ -153,6 +153,17 @@ def gen_c14(r, count, tier):
         else:
             t["stub"] = [["streamcat <T%d>" % i, "exit 0"] for i in range(n)]
         out.append(t)
+    # a started command that writes more than a pipe holds to the stderr the terminator captures (only the parent could
+    # read that pipe: it must let go of it before it waits)
+    q = len(out)
+    for n in (2, 3):
+        for term in ("capture", "communicate"):
+            for det in (False, True):
+                t = {"id": "c14-%d" % q, "kind": "pipeline", "n": n, "failk": n - 1, "term": term, "pstdin": "none", "detached": det,
+                     "shape": "left", "pstdout": "none", "after": "drop", "stderr_to": False, "watchdog": 12}
+                t["stub"] = [["write 2 200000", "exit 0"]] + [["cat", "exit 0"] for i in range(1, n)]
+                out.append(t)
+                q += 1
     # an unbounded producer in front: it ends only when the reader of its output is gone -- which it is once the
     # command that cannot be started has dropped the File it was handed (nobody else may hold that pipe's read end)
     q = len(out)
